@@ -1,5 +1,82 @@
-import FGVerif.Driver.Shared
-/-! driver operations for C10 (stub: replaced by the property's own driver) -/
+import FGVerif.Wire
+import FGVerif.Model.C10
+import FGVerif.Driver.C09
+/-! driver operations for C10 -/
 namespace C10
-def handle : List SExp → Option SExp := fun _ => none
+open SExp C09
+
+def asLab : SExp → Option Lab
+  | .list [g, h] => do pure (.p (← asInt g) (← asInt h))
+  | x => (asInt x).map .s
+
+def ofLab : Lab → SExp
+  | .s o => ofInt o
+  | .p g h => .list [ofInt g, ofInt h]
+
+/-- `(u v label)` -/
+def asLEdge : SExp → Option (Int × Int × Lab)
+  | .list [u, v, l] => do pure (← asInt u, ← asInt v, ← asLab l)
+  | _ => none
+
+/-- ITS graph with optional symbols: `((id sym|_ aam|_) …) ((u v label) …)` -/
+def asGrO : SExp → Option (Gr (Option String) Lab)
+  | .list [ns, es] => do pure { nodes := ← asList asINode ns, edges := ← asList asLEdge es }
+  | _ => none
+
+/-- ITS graph whose nodes all have symbols -/
+def asGrS : SExp → Option (Gr String Lab)
+  | .list [ns, es] => do pure { nodes := ← asList asMolNode ns, edges := ← asList asLEdge es }
+  | _ => none
+
+def ofLEdge (e : Int × Int × Lab) : SExp := .list [ofInt e.1, ofInt e.2.1, ofLab e.2.2]
+def ofGrO (g : Gr (Option String) Lab) : SExp := .list [ofList ofINode g.nodes, ofList ofLEdge g.edges]
+
+def ofPairGr (gh : Gr (Option String) Lab × Gr (Option String) Lab) : SExp :=
+  .list [ofGrO (canonGr gh.1), ofGrO (canonGr gh.2)]
+
+def asPairGr : SExp → Option (Gr (Option String) Lab × Gr (Option String) Lab)
+  | .list [g, h] => do pure (← asGrO g, ← asGrO h)
+  | _ => none
+
+/-- `(split <I> [(<g> <h>)])`            → `(ok (<g> <h>) spec_model spec_impl <simple graph>)`
+    `(resuper <I> [<ITS>])`              → `(ok <ITS> spec_model spec_impl <in domain>)`
+    `(split_of_its <G> <H> [(<g> <h>)])` → `(ok (<g> <h>) spec_model spec_impl <fully mapped>)` -/
+def handle : List SExp → Option SExp
+  | .atom "split" :: i :: rest => do
+      let I ← asGrO i
+      let model := splitIts I
+      let specImpl ← match rest with
+        | [impl] =>
+            if isRaised impl then pure (ofBool false) else do
+              let gh ← asPairGr impl
+              pure (ofBool (splitCheck I gh.1 gh.2))
+        | _ => pure none'
+      pure (.list [.atom "ok", ofPairGr model, ofBool (splitCheck I model.1 model.2), specImpl,
+                   ofBool (simpleOk I)])
+  | .atom "resuper" :: i :: rest => do
+      let I ← asGrS i
+      let model ← resuper I
+      let want := nameByAam I
+      let specImpl ← match rest with
+        | [impl] =>
+            if isRaised impl then pure (ofBool false) else do
+              let J ← asIts impl
+              pure (ofBool (sameIts J want))
+        | _ => pure none'
+      pure (.list [.atom "ok", ofIts (canonIts model), ofBool (sameIts model want), specImpl,
+                   ofBool (itsOk I)])
+  | .atom "split_of_its" :: g :: h :: rest => do
+      let G ← asMol g
+      let H ← asMol h
+      let model := splitOfIts G H
+      let specImpl ← match rest with
+        | [impl] =>
+            if isRaised impl then pure (ofBool false) else do
+              let gh ← asPairGr impl
+              pure (ofBool (splitOfItsCheck G H gh.1 gh.2))
+        | _ => pure none'
+      pure (.list [.atom "ok", ofPairGr model, ofBool (splitOfItsCheck G H model.1 model.2), specImpl,
+                   ofBool (fullyMapped G H)])
+  | _ => none
+
 end C10
